@@ -141,7 +141,7 @@ def inv_oracle(vals, line):
 
 
 
-GROUP_DBL = dict(name='dbl', sources=['h_dbl.cpp'], repo_sources=[], driver=None, replay_prefix=('o.c11.narrowvar', 'o.c12.ldmean', 'o.c13.cinvd', 'o.c13.inttypes', 'o.c14.angletypes', 'o.c15.dyadic'))
+GROUP_DBL = dict(name='dbl', sources=['h_dbl.cpp'], repo_sources=[], driver=None, replay_prefix=('o.c11.narrowvar', 'o.c12.ldmean', 'o.c13.cinvd', 'o.c13.monomial', 'o.c13.inttypes', 'o.c14.angletypes', 'o.c15.dyadic'))
 
 
 def gen_dbl_c13(g, tier):
@@ -171,6 +171,16 @@ def gen_dbl_c13(g, tier):
             for z in row: flat += [F(int(z.real)), F(int(z.imag))]
         for sc in (1.0, 1e-170, 1e-200, 1e155, 1e200, 2.0 ** -600, 2.0 ** 520):
             cs.append(Case('o.c13.cinvd %d %s %s' % (n, dhex(sc), frs(flat)), 'orc', 'complex-double-inverse-extreme-scale', check=cinvd_ok))
+    # huge and tiny entries inside one matrix (exponents up to 2000 binary orders apart): monomial matrices, exact inverse
+    def mono_ok(vals, line):
+        t = line.split()
+        return None if t[:4] == ['ok', '1', '1', '0'] else 'a non-singular matrix with entries of very different magnitude was not inverted exactly: ' + line[:60]
+    for _ in range(max(24, reps * 4)):
+        n = g.choice([2, 3, 4]); perm = list(range(n)); g.r.shuffle(perm)
+        ex = [g.choice([0, 1, -1, 300, -300, 511, 512, 513, -512, -513, 600, -600, 1000, -1000, 1020, -1020, g.randint(-1000, 1000)]) for _ in range(n)]
+        if g.random() < 0.75:      # one huge and one tiny entry for certain
+            ex[0] = g.choice([1000, 1020, 600, 900, 513, g.randint(520, 1020)]); ex[1] = g.choice([-1000, -1020, -600, -700, -1010, -g.randint(520, 1020)]); g.r.shuffle(ex)
+        cs.append(Case('o.c13.monomial %d %s %s %s' % (n, ' '.join(map(str, perm)), ' '.join(map(str, ex)), ' '.join(str(g.randint(0, 3)) for _ in range(n))), 'orc', 'huge-and-tiny-entries-in-one-matrix', check=mono_ok))
     return cs
 
 
